@@ -1313,7 +1313,7 @@ fn c20_grid(ctx: &mut Ctx, p0: &Prim, spdc0: &SPDC) {
     "cmpg_jsa_normalized_range",
     &st,
     &r.map(|v| {
-      let s: Vec<f64> = v.iter().zip(&scs).map(|(z, s)| s / c + z.norm() * sc / c).collect();
+      let s: Vec<f64> = v.iter().zip(&scs).map(|(z, s)| s / c + (z.re.abs() + z.im.abs()) * sc / c).collect();
       triples_c(&v, &s)
     })
     .unwrap_or("PANIC".into()),
